@@ -59,6 +59,7 @@ run)
   P="$ROOT/seeded/$NAME/patch.diff"
   if [ -n "$(git -C /repo status --porcelain --untracked-files=no | grep -v Cargo.lock)" ]; then echo "/repo is not clean"; exit 2; fi
   git -C /repo apply "$P" || { echo "patch does not apply to /repo"; exit 2; }
+  mkdir -p "$ROOT/work"
   for c in "$@"; do
     out="$ROOT/work/seeded-$NAME-$c.out"
     start=$(date +%s)
